@@ -344,6 +344,9 @@ func runKeys(rng *rand.Rand, n int, out *Out, args []string) {
 			panic(err)
 		}
 		keyLifeCycle(rng, out, entropy, kf.Path, pw, size)
+		if i%3 == 1 {
+			heldKeyFile(rng, out, entropy, pw, size)
+		}
 		// a key file is a function of (entropy, password, salt, nonce) only: written and read under different numbers of
 		// usable CPUs (GOMAXPROCS is what a container limit or a small VPS changes)
 		if i%3 == 0 {
@@ -523,6 +526,54 @@ func safeDecrypt(cf *wallet.KeyFile, pw string) (err error) {
 // pillar keeps its producing key pair; the store is locked, zeroed, unlocked again, the manager stopped): same
 // private / public key and address as when it was derived, its signatures verify under its public key, and a later
 // derivation of the same index is an equal but independent pair
+// heldKeyFile: a key file OBJECT is held while the wallet goes on working — other key stores are encrypted, the
+// proof-of-work and anybody else draw from the wallet's random source — and must still be the same file afterwards: the
+// same JSON, decrypting with its password to the entropy it was made from. The drawn values themselves are values: one
+// draw never changes under a later one.
+func heldKeyFile(rng *rand.Rand, out *Out, entropy []byte, pw string, size int) {
+	ks, err := wallet.VerifKeyStoreFromEntropy(append([]byte{}, entropy...))
+	if err != nil {
+		return
+	}
+	kf, err := ks.Encrypt(pw)
+	if err != nil || kf == nil {
+		return
+	}
+	before, _ := json.Marshal(kf)
+	type draw struct{ got, copy []byte }
+	var draws []draw
+	total := 0
+	for total < 6000 {
+		n := []int{8, 12, 16, 24, 32, 64, 128, 1 + rng.Intn(200)}[rng.Intn(8)]
+		d := wallet.GetEntropyCSPRNG(n)
+		draws = append(draws, draw{d, append([]byte{}, d...)})
+		total += n
+	}
+	for i := 0; i < 2; i++ {
+		if other, err := wallet.VerifKeyStoreFromEntropy(wallet.GetEntropyCSPRNG(size)); err == nil {
+			other.Encrypt("another password")
+		}
+	}
+	after, _ := json.Marshal(kf)
+	out.Oracle(bytes.Equal(before, after), "held-keyfile-unchanged-by-later-wallet-activity",
+		M{"entropy_size": size, "bytes_drawn_meanwhile": total, "before": string(before), "after": string(after)})
+	back, derr := kf.Decrypt(pw)
+	okBack := derr == nil && back != nil && bytes.Equal(back.Entropy, entropy)
+	out.Oracle(okBack, "held-keyfile-still-decrypts-to-its-entropy", M{"entropy_size": size, "bytes_drawn_meanwhile": total, "err": fmt.Sprint(derr)})
+	stable, distinct := true, true
+	seen := map[string]bool{}
+	for _, d := range draws {
+		stable = stable && bytes.Equal(d.got, d.copy)
+		if len(d.copy) >= 8 {
+			distinct = distinct && !seen[string(d.copy)]
+			seen[string(d.copy)] = true
+		}
+	}
+	out.Oracle(stable, "random-draw-unchanged-by-later-draws", M{"draws": len(draws)})
+	out.Oracle(distinct, "random-draws-distinct", M{"draws": len(draws)})
+	out.Count("held-keyfile-history")
+}
+
 func keyLifeCycle(rng *rand.Rand, out *Out, entropy []byte, path, pw string, size int) {
 	type kept struct {
 		kp            *wallet.KeyPair
